@@ -109,7 +109,10 @@ def documented(e):
         return True
     if isinstance(e, NotImplementedError):
         return True
-    return isinstance(e, TypeError) and bool(str(e)) and explicit_raise(e)
+    # (a `raise` whose operand is not an exception fails with this TypeError of the
+    # interpreter's: that is an accident, not a documented refusal)
+    return (isinstance(e, TypeError) and bool(str(e)) and explicit_raise(e)
+            and "must derive from BaseException" not in str(e))
 
 
 class Ctx:
@@ -346,6 +349,15 @@ def check_unary(cx, A, oa, kind, P, va, band, rng):
             st, got = cx.call(cell, lambda: A.projectVector(vec(p), d))
             if st != "ok":
                 break
+            if d == (0.0, 0.0, 1.0) and i == idx[0]:
+                # a Workspace answers for its region: same projection through the wrapper
+                from scenic.core.workspaces import Workspace
+                wcell = f"projectVector:Workspace({kind})"
+                st2, got2 = cx.call(wcell, lambda: Workspace(A).projectVector(vec(p), d))
+                if st2 == "ok" and got is not None and got2 is not None and \
+                        np.linalg.norm(np.array(got2, float) - np.array(got, float)) > 1e-9 * scale:
+                    cx.fail(f"{wcell}|differs-from-region", point=[float(x) for x in p],
+                            region=[float(x) for x in got], workspace=[float(x) for x in got2])
             if T is None:
                 cx.cls("unjudged:projectVector-no-oracle:" + kind)
                 break
